@@ -598,4 +598,43 @@ func init() {
 		rule: "new_stream order on the wire and handler invocation log vs caller log; non-trivial = at least two streams were opened"})
 }
 
+func ntC02(c *Case, tr *Trace) bool {
+	for _, r := range c.RPCs {
+		if r.Creds != nil || (r.Code != 0 && len(r.Details) > 0) {
+			return true
+		}
+		for _, op := range r.HOps {
+			for _, v := range op.MD {
+				if len(v) > 1 {
+					return true
+				}
+			}
+			if (op.Kind == "settrl" || op.Kind == "sethdr" || op.Kind == "sendhdr") && len(op.MD) > 0 {
+				return true
+			}
+		}
+	}
+	return false
+}
+
+func init() {
+	register(&checkDef{prop: "C02", parts: []part{
+		{name: "c02", gen: genC02, monitors: []Monitor{monC02}, labels: commonLabels, nontrivial: ntC02, quick: 1200, thorough: 40000},
+	},
+		rule: "rapid draws 1-3 RPCs with a generated handler behaviour (any order of SetHeader/SendHeader/Send/SetTrailer, all 17 codes, messages incl. multi-byte and 4 KB, 0-3 details), generated request metadata (absent, empty, multi-valued, -bin), call options (Header, Trailer, Peer, PerRPCCredentials with/without outgoing metadata) and caller read orders, a schedule tape and the trailer-publication yield point; oracle = equality with a small model of the gRPC header/trailer/status rules, trailers read immediately after the terminal result in the same step; non-trivial = non-empty headers/trailers or multi-valued key, non-OK status with details, or credentials in use"})
+}
+
+func labelsC03(c *Case, tr *Trace) []string {
+	ls := commonLabels(c, tr)
+	_, kind := disturberOf(c)
+	return append(ls, "disturber="+kind)
+}
+
+func init() {
+	register(&checkDef{prop: "C03", parts: []part{
+		{name: "c03", gen: genC03, monitors: []Monitor{monC03}, labels: labelsC03, nontrivial: ntC03, quick: 1500, thorough: 40000},
+	},
+		rule: "1-4 bystander RPCs (mixed shapes, sizes up to 150 KB) plus one disturber of a drawn kind (handler error, unknown/malformed/empty method, started after shutdown, cancelled, expired, caller or handler that never reads while its peer sends 2-8 windows, request metadata / method name / response header / trailer that cannot be encoded), interleaved by the tape; metamorphic oracle: every bystander completes exactly as it would without the disturber, the tunnel is still up and a fresh probe RPC succeeds, and with flow control negotiated bystanders are complete at the drained point before stalled consumers are released; non-trivial = the disturber's first frame lies strictly between bystander frames, or a never-reading disturber actually exhausted a window"})
+}
+
 var _ = strings.Join
